@@ -18,6 +18,21 @@ def first_ok_set_size(ps):
     return None
 
 
+def later_set_size(ps):
+    """first successful assignment to pool_size that is not the one made before the first request"""
+    for j, v, ok in ps.set_size_steps:
+        if ok and not (ps.early is not None and ps.early[0] == j):
+            return j
+    return None
+
+
+def size_at(ps, j):
+    """the size the pool was given, as of step j (an assignment before the first request counts as given)"""
+    if ps.early is not None and j >= ps.early[0]:
+        return ps.early[1]
+    return ps.size
+
+
 def obs_steps(st):
     for j, o in enumerate(st.obs):
         if o is not None:
@@ -43,17 +58,17 @@ def finished_before(t, j):
 def mon_C01(st):
     out = []
     for pi, ps in enumerate(st.pools):
-        stop = first_ok_set_size(ps)
+        stop = later_set_size(ps)
         lc = st.live_counts(pi)
         for j, o in obs_steps(st):
             if pi >= len(o["pools"]) or (stop is not None and j >= stop):
                 continue
             po = o["pools"][pi]
-            if ps.size is None:
+            if size_at(ps, j) is None:
                 if po["f"]:
                     out.append(("unbounded-pool-full", j, f"pool {pi} is_full on an unbounded pool"))
                 continue
-            N = ps.size
+            N = size_at(ps, j)
             if po["n"] > N:
                 out.append(("num_running>size", j, f"pool {pi}: num_running={po['n']} size={N}"))
             if lc[j][1] > N:
@@ -72,12 +87,12 @@ def mon_C02(st):
     out = []
     qj = quiet_step(st)
     for pi, ps in enumerate(st.pools):
-        stop = first_ok_set_size(ps)
+        stop = later_set_size(ps)
         for j, o in obs_steps(st):
-            if pi >= len(o["pools"]) or ps.size is None or (stop is not None and j >= stop):
+            if pi >= len(o["pools"]) or size_at(ps, j) is None or (stop is not None and j >= stop):
                 continue
             po = o["pools"][pi]
-            N = ps.size
+            N = size_at(ps, j)
             if po["n"] + po["c"] > N:
                 out.append(("in-flight>size", j, f"pool {pi}: running+cancelled={po['n'] + po['c']} size={N}"))
             if o["q"] == 0 and bool(po["f"]) != (po["n"] + po["c"] == N):
@@ -100,7 +115,7 @@ def mon_C02(st):
             if pi >= len(st.pools) or not o["r"].startswith("name:"):
                 continue
             ps = st.pools[pi]
-            if ps.size in (None, 0) or first_ok_set_size(ps) is not None:
+            if size_at(ps, j) in (None, 0) or later_set_size(ps) is not None:
                 continue
             if ps.kind == "simple" and (ps.has_hooks or ps.spec["bad"]):
                 continue
@@ -109,9 +124,9 @@ def mon_C02(st):
                 if len(tk) >= 3 and tk[0] == "on" and int(tk[1]) == pi and tk[2] == "get_ids" and st.obs[k] is not None:
                     r = st.obs[k]["r"]
                     got = len([x for x in r[4:].split("/") if x]) if r.startswith("set:") else -1
-                    if got != ps.size:
-                        out.append(("capacity-lost", k, f"pool {pi}: a size-{ps.size} pool at rest started {got} of "
-                                                       f"{ps.size} requested tasks"))
+                    if got != size_at(ps, j):
+                        out.append(("capacity-lost", k, f"pool {pi}: a size-{size_at(ps, j)} pool at rest started {got} of "
+                                                       f"{size_at(ps, j)} requested tasks"))
                     break
     return out
 
@@ -559,6 +574,27 @@ def mon_C09(st):
                 jc, outcome = api_completion(st, pi, a)
                 if jc is not None and outcome == "ok":
                     gac_done[pi] = min(gac_done.get(pi, jc), jc)
+    # an explicit group name that is still in use is refused, whatever the name (hook-free pools)
+    for pi, ps in enumerate(st.pools):
+        if ps.has_hooks:
+            continue
+        live = {}
+        for j, toks in enumerate(st.toks):
+            o = st.obs[j]
+            if o is None or not toks or toks[0] != "on" or len(toks) < 3 or int(toks[1]) != pi:
+                continue
+            k = toks[2]
+            if k in ("apply", "map") and o["r"].startswith("name:"):
+                g = toks[4] if k == "apply" else toks[6]
+                if g != "-":
+                    if g in live:
+                        out.append(("duplicate-group-name-accepted", j,
+                                    f"pool {pi}: {g!r} was given to the request at step {live[g]} and not cancelled since"))
+                    live[g] = j
+            elif k == "cancel_group" and o["r"] == "ok":
+                live.pop(toks[3], None)
+            elif k == "cancel_all" and o["r"] == "ok":
+                live.clear()
     # lock() holds until unlock(): nothing else (a flush, a task ending, ...) may re-open the pool
     user_locked = {}
     for j, toks in enumerate(st.toks):
@@ -725,6 +761,14 @@ def mon_C10(st):
                     out.append(("cancelled-group-still-known", j,
                                 f"pool {pi}: {n} was cancelled at step {dead[n]} and not requested again, ids {known[n]}"))
                     del dead[n]
+    # every task is listed under a name some request returned (observed after every single op of a hook-free pool)
+    for pi, ps in enumerate(st.pools):
+        if ps.has_hooks:
+            continue
+        for t in ps.tasks.values():
+            if t.S is not None and t.req is None:
+                out.append(("task-outside-every-known-group", t.S,
+                            f"pool {pi}: task {t.tid} runs, but no group name ever returned by a request lists it"))
     # every task belongs to the group whose name was returned by the call that requested it
     for pi, ps in enumerate(st.pools):
         for r in ps.reqs:
